@@ -1072,8 +1072,8 @@ spec fn c03_fire(m: Mapping, evs: Seq<Event>, h: Set<KeyCode>) -> bool {
   &&& (forall|o: KeyCode| #[trigger] m.to@.contains(o) && !is_mod(o) ==> evs.contains(Event::Pressed(o)))
   &&& (forall|o: KeyCode| #[trigger] m.to@.contains(o) && is_mod(o) ==> h.contains(o))
   &&& (m.repeat is Normal ==> forall|o: KeyCode| #[trigger] m.to@.contains(o) ==> h.contains(o))
-  &&& (!(m.repeat is Normal) ==> forall|x: KeyCode| h.contains(x) ==> is_mod(x))
 }
+spec fn c07_fire(m: Mapping, h: Set<KeyCode>) -> bool { !(m.repeat is Normal) ==> forall|x: KeyCode| h.contains(x) ==> is_mod(x) }
 proof fn lemma_prefix_contains<T>(a: Seq<T>, b: Seq<T>)
   requires a.len() <= b.len(), forall|j: int| 0 <= j < a.len() ==> b[j] == a[j]
   ensures forall|e: T| a.contains(e) ==> b.contains(e)
@@ -1102,7 +1102,7 @@ proof fn lemma_out_done_all(m: Mapping, evs: Seq<Event>, h: Set<KeyCode>)
 // after the output phase (Normal repeat: this is the final state)
 proof fn lemma_c03_fire_normal(m: Mapping, evs: Seq<Event>, h: Set<KeyCode>)
   requires out_done(m.to@, m.to@.len() as int, evs, h)
-  ensures fire_pre(m, evs, h), m.repeat is Normal ==> c03_fire(m, evs, h)
+  ensures fire_pre(m, evs, h), m.repeat is Normal ==> c03_fire(m, evs, h) && c07_fire(m, h)
 {
   lemma_out_done_all(m, evs, h);
 }
@@ -1113,7 +1113,7 @@ spec fn fire_pre(m: Mapping, evs: Seq<Event>, h: Set<KeyCode>) -> bool {
 proof fn lemma_c03_fire_norepeat(m: Mapping, e0: Seq<Event>, c: Seq<Event>, h0: Set<KeyCode>, h1: Set<KeyCode>)
   requires fire_pre(m, e0, h0), !(m.repeat is Normal),
     forall|k: KeyCode| h1.contains(k) ==> is_mod(k), forall|k: KeyCode| h0.contains(k) && is_mod(k) ==> h1.contains(k),
-  ensures c03_fire(m, e0 + c, h1)
+  ensures c03_fire(m, e0 + c, h1), c07_fire(m, h1)
 {
   assert forall|o: KeyCode| #[trigger] m.to@.contains(o) && !is_mod(o) implies (e0 + c).contains(Event::Pressed(o)) by {
     let j = choose|j: int| 0 <= j < e0.len() && e0[j] == Event::Pressed(o); assert((e0 + c)[j] == Event::Pressed(o));
@@ -1155,6 +1155,8 @@ fn add_new_mapping(state: &mut State, new_key: &KeyCode, m: &Mapping) -> (res: S
     forall|x: KeyCode| #[trigger] final(state).mapped_absorbed_keys@.contains(x) ==> old(state).mapped_absorbed_keys@.contains(x) || m.absorbing@.contains(x),
     //@ C03 C07 | every non-modifier output key of the fired mapping is pressed by an event of this step; every modifier output key is held at the end; with Normal repeat the whole output is held at the end
     c03_fire(*m, res.events@, held(*final(state))),
+    //@ C07 | after a mapping with Disabled or Special repeat fired, only modifiers are held
+    c07_fire(*m, held(*final(state))),
     //@ C09 | repeat request
     repeat_matches(m.repeat, res.repeat),
     //@ C01 C02 C09 | effect of the call on the list of keys considered pressed
@@ -2233,7 +2235,8 @@ fn newly_press(mapper: &mut Mapper, k: KeyCode) -> (res: StepResult)
     forall|i: int| is_fired(group(old(mapper).layout, k), old(mapper).state, k, i) ==>
         final(mapper).state.active_mappings@.len() >= 1 && mview(final(mapper).state.active_mappings@.last()) == mview(#[trigger] group(old(mapper).layout, k)[i])
         && repeat_matches(group(old(mapper).layout, k)[i].repeat, res.repeat)
-        && c03_fire(group(old(mapper).layout, k)[i], res.events@, held(final(mapper).state)),
+        && c03_fire(group(old(mapper).layout, k)[i], res.events@, held(final(mapper).state))
+        && c07_fire(group(old(mapper).layout, k)[i], held(final(mapper).state)),
     none_fired(group(old(mapper).layout, k), old(mapper).state, k) ==> res.repeat is Disabled,
     //@ C03 C05 | no mapping qualifies: nothing is emitted if a mapping in effect mentions the key, otherwise the key itself is passed through as the last event of the step
     none_fired(group(old(mapper).layout, k), old(mapper).state, k) ==>
@@ -2245,7 +2248,7 @@ fn newly_press(mapper: &mut Mapper, k: KeyCode) -> (res: StepResult)
     np_origin(final(mapper).state, old(mapper).state, group(old(mapper).layout, k)),
     j3b(old(mapper).layout, old(mapper).state) && j5(old(mapper).layout, old(mapper).state) ==> j3b(final(mapper).layout, final(mapper).state) && j5(final(mapper).layout, final(mapper).state),
   { //@ | body
-  hide(j4); hide(j6); hide(nonempty_from); hide(from_in); hide(am_sub); hide(sup); hide(np_origin); hide(c03_fire); hide(mentioned); hide(ip_kept);
+  hide(j4); hide(j6); hide(nonempty_from); hide(from_in); hide(am_sub); hide(sup); hide(np_origin); hide(c03_fire); hide(c07_fire); hide(mentioned); hide(ip_kept);
   let mappings = &mapper.layout.mappings;
   let mut state = &mut mapper.state;
   
@@ -2326,7 +2329,7 @@ fn newly_press(mapper: &mut Mapper, k: KeyCode) -> (res: StepResult)
         //@ C03 C08 | firing specification (support test, grouping of the layout by final trigger key)
         !any_hit ==> forall|j: int| mappings@.len() - it.index@ <= j < mappings@.len() ==> !sup(#[trigger] mappings@[j], st0, k),
         //@ C03 C08 C09 | firing specification: the last-listed supported mapping of the group fires, with its repeat request
-        any_hit ==> exists|i: int| is_fired(g, st0, k, i) && state.active_mappings@.len() >= 1 && mview(state.active_mappings@.last()) == mview(g[i]) && repeat_matches(g[i].repeat, res.repeat) && c03_fire(g[i], res.events@, held(*state)),
+        any_hit ==> exists|i: int| is_fired(g, st0, k, i) && state.active_mappings@.len() >= 1 && mview(state.active_mappings@.last()) == mview(g[i]) && repeat_matches(g[i].repeat, res.repeat) && c03_fire(g[i], res.events@, held(*state)) && c07_fire(g[i], held(*state)),
         //@  | frame / auxiliary
         it.seq().len() == mappings@.len(),
         forall|j: int| 0 <= j < mappings@.len() ==> *it.seq()[j] == mappings@[mappings@.len() - 1 - j],
@@ -2373,7 +2376,7 @@ fn newly_press(mapper: &mut Mapper, k: KeyCode) -> (res: StepResult)
       if is_supported(&mapping.from, &state.input_pressed_keys, &absorbed_keys, &k) {
         let ghost hm0 = held(*state); let ghost e0 = res.events@;
         res.append(add_new_mapping(&mut state, &k, &mapping));
-        proof { let c = choose|c: Seq<Event>| res.events@ == e0 + c && apply(hm0, c) == Some(held(*state)) && c03_fire(*mapping, c, held(*state)); assert(e0.len() == 0); assert(e0 =~= Seq::<Event>::empty()); assert(e0 + c =~= c);
+        proof { let c = choose|c: Seq<Event>| res.events@ == e0 + c && apply(hm0, c) == Some(held(*state)) && c03_fire(*mapping, c, held(*state)) && c07_fire(*mapping, held(*state)); assert(e0.len() == 0); assert(e0 =~= Seq::<Event>::empty()); assert(e0 + c =~= c);
           assert forall|f: KeyCode| #[trigger] state.active_mappings@.last().from@.contains(f) implies f == k || state.input_pressed_keys@.contains(f) by {
             let j = choose|j: int| 0 <= j < mapping.from@.len() && mapping.from@[j] == f;
             assert((old(mapper).state.input_pressed_keys@.contains(mapping.from@[j]) && !absorbed_keys@.contains(mapping.from@[j])) || mapping.from@[j] == k);
@@ -2688,7 +2691,7 @@ impl Mapper {
     match input {
       Pressed(k) => {
         if !state.input_pressed_keys.contains(&k) {
-          proof { let g = group(self.layout, k); lemma_scan(g, self.state, k, g.len() as int); reveal(c03_fire); reveal(ip_kept); }
+          proof { let g = group(self.layout, k); lemma_scan(g, self.state, k, g.len() as int); reveal(c03_fire); reveal(c07_fire); reveal(ip_kept); }
           newly_press(self, k)
         }
         else {
